@@ -229,6 +229,40 @@ theorem shift_equiv_image {d : ℕ} (x w q : Fin d → ℝ) (k : Fin d → ℤ) 
   push_cast
   ring
 
+
+/-! ## 5b. wrapping a translated generator back into the box does not change its lattice (T06.3) -/
+
+/-- a lattice image of a lattice image is a lattice image -/
+theorem image_image {d : ℕ} (q w : Fin d → ℝ) (n k : Fin d → ℤ) :
+    image (image q w n) w k = image q w (fun i => n i + k i) := by
+  funext i
+  simp only [image]
+  push_cast
+  ring
+
+/-- T06.3: replacing a generator by any of its lattice images (e.g. wrapping `g + t` back into the box)
+leaves the set of all its periodic images unchanged; together with `VorSet.Vor_translate` this is why
+translating all generators and wrapping them only translates the periodic tessellation -/
+theorem images_of_wrapped {d : ℕ} (q w : Fin d → ℝ) (n : Fin d → ℤ) :
+    Set.range (image (image q w n) w) = Set.range (image q w) := by
+  ext x
+  constructor
+  · rintro ⟨k, rfl⟩
+    exact ⟨fun i => n i + k i, (image_image q w n k).symm⟩
+  · rintro ⟨k, rfl⟩
+    refine ⟨fun i => k i - n i, ?_⟩
+    rw [image_image]
+    congr 1
+    funext i
+    ring
+
+/-- translating a generator translates each of its lattice images -/
+theorem image_translate {d : ℕ} (q t w : Fin d → ℝ) (k : Fin d → ℤ) :
+    image (fun i => q i + t i) w k = fun i => image q w k i + t i := by
+  funext i
+  simp only [image]
+  ring
+
 /-- one axis: the reported shift component `-(i * w)`, `i ∈ {-1,0,1}`, is one of `-w, 0, w`, and
 it is `0` exactly when `i = 0` -/
 theorem reported_shift_spec (w : ℝ) (i : ℤ) (hw : 0 < w) (hi : i = -1 ∨ i = 0 ∨ i = 1) :
